@@ -26,11 +26,12 @@ def CollisionFree (H : Bytes → Bytes) (p p' : Bytes) : Prop := H p = H p' → 
 def NoForgery (keys : List Bytes) (sig : Bytes) (z z' : Nat) : Prop :=
   (∃ k ∈ keys, sigVerifies k sig z = true) → z' ≠ z → ∀ k ∈ keys, sigVerifies k sig z' = false
 
-/-- the bytes a signature of hash type `ht` on input `idx` (closure kind `witness`, script code `code`) commits to are
-`p` in state `s` and `p' ≠ p` in state `s'` -/
-structure Tampered (c : Coin) (s s' : State) (witness : Bool) (code : Bytes) (idx ht : Nat) (p p' : Bytes) : Prop where
+/-- the bytes a signature of hash type `ht` on input `idx` (closure kind `witness`) commits to are `p` in state `s`, where
+the script code is `code`, and `p' ≠ p` in state `s'`, where the script code is `code'` (the same one unless the script
+being satisfied was changed) -/
+structure Tampered (c : Coin) (s s' : State) (witness : Bool) (code code' : Bytes) (idx ht : Nat) (p p' : Bytes) : Prop where
   pre : preimageOf c s witness code idx ht = .ok (some p)
-  pre' : preimageOf c s' witness code idx ht = .ok (some p')
+  pre' : preimageOf c s' witness code' idx ht = .ok (some p')
   ne : p ≠ p'
 
 theorem sha_length (single : Bool) (b : Bytes) : (sha single b).length = 32 := by
@@ -76,13 +77,13 @@ theorem chkOf_eq (c : Coin) (s : State) (idx : Nat) (w : Bool) (code sig key : B
 /-- **the glue**: the signature verified in `s` for one of the keys; the bytes it commits to differ in `s'`; the digest
 function does not collide on the two; the signature is no forgery for the other digest ⇒ in `s'` the signature check refuses
 it for every key -/
-theorem tamper_glue (c : Coin) (s s' : State) (idx : Nat) (w : Bool) (code sig : Bytes) (keys : List Bytes) (ht : UInt8)
-    (hl : sig.getLast? = some ht) (p p' : Bytes) (hT : Tampered c s s' w code idx ht.toNat p p')
+theorem tamper_glue (c : Coin) (s s' : State) (idx : Nat) (w : Bool) (code code' sig : Bytes) (keys : List Bytes) (ht : UInt8)
+    (hl : sig.getLast? = some ht) (p p' : Bytes) (hT : Tampered c s s' w code code' idx ht.toNat p p')
     (hCR : CollisionFree (msgHash c w) p p') (hUF : NoForgery keys sig (msgDigest c w p) (msgDigest c w p'))
     (hs : ∃ k ∈ keys, chkOf (oracle c s idx) sig k code w = true) :
-    ∀ k ∈ keys, chkOf (oracle c s' idx) sig k code w = false := by
+    ∀ k ∈ keys, chkOf (oracle c s' idx) sig k code' w = false := by
   intro k hk
-  rw [chkOf_eq c s' idx w code sig k ht hl p' hT.pre']
+  rw [chkOf_eq c s' idx w code' sig k ht hl p' hT.pre']
   obtain ⟨k0, hk0, hv⟩ := hs
   rw [chkOf_eq c s idx w code sig k0 ht hl p hT.pre] at hv
   exact hUF ⟨k0, hk0, hv⟩ (msgDigest_ne c w p p' hT.ne hCR) k hk
@@ -146,6 +147,24 @@ theorem p2pkh_not_valid (c : Coin) (st : State) (idx : Nat) (sig key h : Bytes)
     (p2pkh_not_witness h hlen) (p2pkh_not_p2sh h hlen)]
   apply legacyVerdict_ne_none (rest := [])
   apply evalScript_p2pkh_bad _ sig key h F0 tx .base hlen (sigEnc_default sig) (keyEnc_default key .base) rfl
+  rw [scriptCodeFor_base]
+  exact hbad
+
+/-- **P2PKH followed by `NOP`** — a spent script changed so that the same `<sig> <key>` still runs -/
+theorem p2pkhNop_not_valid (c : Coin) (st : State) (idx : Nat) (sig key h : Bytes)
+    (hi : InputIs st idx (pushesOf [sig, key]) [] (p2pkhNopScript h)) (hlen : h.length = 20)
+    (hs2 : 2 ≤ sig.length) (hs : sig.length ≤ 75) (hk2 : 2 ≤ key.length) (hk : key.length ≤ 75)
+    (hbad : Hash.hash160 key ≠ h ∨ chkOf (oracle c st idx) sig key (baseCode (p2pkhNopScript h) [sig]) false = false) :
+    isSolutionOk (stdVM c) c st idx ≠ .ok true := by
+  apply not_valid_of_spec' c st idx _ _ _ hi
+  intro tx
+  rw [verifyScript_bare_eq _ _ _ F0 tx [key, sig]
+    (isPushOnly_pushes _ (by intro d hd; simp at hd; rcases hd with rfl | rfl <;> omega))
+    (by have := evalScript_two_pushes (VM.specChk (chkOf (oracle c st idx))) sig key F0 tx hs2 hs hk2 hk
+        simpa [pushesOf] using this)
+    (p2pkhNop_not_witness h hlen) (p2pkhNop_not_p2sh h hlen)]
+  apply legacyVerdict_ne_none (rest := [])
+  apply evalScript_p2pkhNop_bad _ sig key h F0 tx .base hlen (sigEnc_default sig) (keyEnc_default key .base) rfl
   rw [scriptCodeFor_base]
   exact hbad
 
